@@ -813,6 +813,12 @@ class PDDLWriter:
         out.write(f"\n )\n")
         goals_str: List[str] = []
         for g in (c.simplify() for c in self.problem.goals):
+            if g.is_true():
+                continue
+            if g.is_false():
+                raise UPProblemDefinitionError(
+                    "The problem has a goal that is always false; PDDL has no constant to write it."
+                )
             if g.is_and():
                 goals_str.extend(map(converter.convert, g.args))
             else:
